@@ -619,6 +619,12 @@ func (pr *wirePair) fieldPair(p *Prog, x, y *wNode, where string) {
 	} else {
 		ePaths, okE = pr.enc.paths().srcPaths(x.Src, 0)
 	}
+	// a token the decoder reads and throws away although the encoder writes a field of the message there
+	if id, ok := ast.Unparen(y.Src).(*ast.Ident); ok && id.Name == "_" && y.K == wTok && okE && len(ePaths) == 1 && strings.HasPrefix(ePaths[0], "$.") && x.Wrap == "" {
+		pr.fieldCompared++
+		pr.fieldIssues = append(pr.fieldIssues, where+": encode writes "+ePaths[0]+" ("+p.posShort(x.Pos)+") where decode reads the token and discards it ("+p.posShort(y.Pos)+")")
+		return
+	}
 	dPath, okD := pr.dec.paths().sinkPath(y.Src, y.Pos)
 	if !okE || !okD || len(ePaths) != 1 || dPath == "" {
 		pr.fieldSkipped++
